@@ -1,3 +1,4 @@
+import Proofs.MapOrderLemmas
 import Proofs.PostLemmas
 import Proofs.LoopLemmas
 /-!
@@ -26,12 +27,22 @@ theorem rangeItems_get (a b : Int) (i : Nat) (h : a ≤ b) (hi : i < (b - a + 1)
 /-- arrays, typed slices and fixed arrays are visited element by element, in order -/
 theorem loopItems_slice (t : Ty) (xs : List GoVal) : loopItems (.slice t xs) = .ok xs := rfl
 theorem loopItems_array (t : Ty) (xs : List GoVal) : loopItems (.array t xs) = .ok xs := rfl
-/-- a map is visited as `[key, value]` pairs, one per entry, in the (sorted) entry order -/
-theorem loopItems_map (k v : Ty) (kvs : List (GoVal × GoVal)) :
-    loopItems (.map k v kvs) = .ok (kvs.map fun kv => mkPair kv.1 kv.2) := rfl
+/-- a map is visited as `[key, value]` pairs, one per entry, in the order of `values.SortedMapKeys`
+    (`MapOrder.sortedEntries`: whatever the order of the entry list `kvs`; `Proofs/MapOrder.lean`
+    proves that order independent of it). The only map without an answer has several keys that are
+    neither booleans, numbers nor strings (`MapOrder.manyClass4`: ordered by `fmt.Sprint`). -/
+theorem loopItems_map (k v : Ty) (kvs : List (GoVal × GoVal)) (h : MapOrder.manyClass4 kvs = false) :
+    loopItems (.map k v kvs) = .ok ((MapOrder.sortedEntries kvs).map fun kv => mkPair kv.1 kv.2) := by
+  simp [loopItems, MapOrder.sortedMapEntries, h]
 theorem loopItems_map_length (k v : Ty) (kvs : List (GoVal × GoVal)) (xs : List GoVal)
     (h : loopItems (.map k v kvs) = .ok xs) : xs.length = kvs.length := by
-  simp only [loopItems_map, Res.ok.injEq] at h; subst h; simp
+  simp only [loopItems] at h
+  rcases MapOrder.sortedMapEntries_cases (ε := Cause) kvs with ⟨_, h1⟩ | ⟨_, w, h1⟩
+  · rw [h1] at h
+    simp only [Res.bind_ok, Res.ok.injEq] at h
+    subst h
+    simp [MapOrder.sortedEntries_length]
+  · rw [h1] at h; cases h
 /-- nil selects nothing -/
 theorem loopItems_nil : loopItems .nil = .ok [] := rfl
 
